@@ -13,5 +13,5 @@ def run(ctx):
     # the in-memory side of a clean close (drain merges, final persist of every modified table)
     ctx.tlc_mc("Pipeline.tla", "Pipeline_quick.cfg", timeout=300)
     ctx.tlc_mc("Pipeline.tla", "Pipeline_dev_f20.cfg", timeout=300, expect_violation="ReopenSeesAll", count=False)
-    durcommon.run_file(ctx, "reopen", 12 if ctx.thorough() else 4, 0, "C04")
+    durcommon.run_file(ctx, "reopen", 60 if ctx.thorough() else 4, 0, "C04")
     ctx.assumptions += durcommon.ASSUME
